@@ -7,3 +7,6 @@ package local
 // through the shared helpers in zz_verif_common_records.go).
 
 func Verif_C06_H4_RecordRoundTrip() { verifScenarioRecordRoundTrip() }
+
+// H4b: the codec on a grid of concrete records (see verifScenarioRecordRoundTripGrid).
+func Verif_C06_H4b_RecordRoundTripGrid() { verifScenarioRecordRoundTripGrid() }
